@@ -310,6 +310,8 @@ func parseFile(rootParser *Parser, filename string, definitions map[string]strin
 		newP.variables = definitions
 	}
 	out, _ := newP.Parse(false)
+	// --all parses hundreds of include files in one process: don't keep their descriptors
+	_ = readFile.Close()
 	newOut, err := mergePrefixesSuffixes(rootParser, newP, out)
 	if err != nil {
 		logger.Fatal().Msgf("error parsing file: %v", err.Error())
